@@ -109,6 +109,14 @@ class Rig:
 
     def do(self, act):
         """act: tuple; executes on the real pipe, records request + canonical reply"""
+        self._do(act)
+        # lock-free point: the attached event mirrors "closed or data buffered" (event_tracks_buffer)
+        ev = self.bp._event
+        if ev is not None and ev.is_set() != (self.bp._closed or len(self.bp._buffer) > 0):
+            self.problems.append(("event-does-not-track-buffer", "event %s, closed %s, buffered %d after %r" % (
+                ev.is_set(), self.bp._closed, len(self.bp._buffer), act)))
+
+    def _do(self, act):
         self.schedule.append(list(act))
         k = act[0]
         bp = self.bp
